@@ -296,7 +296,7 @@ def _eval_dont_cares(
                 assignment[inputs[idx]] = False
                 idx -= 1
             assignment[inputs[idx]] = True
-        for gate, value in circuit.evaluate_circuit(assignment).items():
+        for gate, value in circuit.evaluate_full_circuit(assignment).items():
             if value != Undefined:
                 truth_table[gate].append(int(tp.cast(bool, value)))
 
